@@ -444,4 +444,25 @@ theorem rt_f64_range (v : JV) (h : RT .f64 v) : SJ.Proofs.TypedFloat.IntRangeOK 
   cases tv <;> simp [wfTV] at hw
   constructor <;> intro _ h <;> simp [valueOf] at h
 
+/-- a struct is written as an object, never as an array -/
+theorem rt_struct_notArr (fs : List (Bytes × Schema)) (dn : Bool) (xs : List JV) : ¬ RT (.struct_ fs dn) (.arr xs) := by
+  rintro ⟨tv, hw, he⟩
+  cases tv <;> simp [wfTV, valueOf] at hw he
+
+/-- every member of the object written for a struct names a field -/
+theorem rt_struct_known (fs : List (Bytes × Schema)) (dn : Bool) (kvs : List (Bytes × JV)) (h : RT (.struct_ fs dn) (.obj kvs)) :
+    ∀ kv ∈ kvs, FromValue.nameIndex (fieldNames fs) kv.1 ≠ none := by
+  obtain ⟨tv, hw, he⟩ := h
+  cases tv with
+  | struct_ ys =>
+    simp only [wfTV, Bool.and_eq_true, namesOK] at hw
+    simp only [valueOf, JV.obj.injEq] at he
+    subst he
+    intro kv hx
+    obtain ⟨j, s', y, h1, _, _⟩ := valueFields_mem fs ys hw.2 kv hx
+    have hnj : FromValue.nameIndex (fieldNames fs) kv.1 = some j :=
+      nameIndex_of_distinct _ j kv.1 hw.1.2 (by simp [fieldNames, h1])
+    rw [hnj]; exact fun h => by cases h
+  | _ => simp [wfTV] at hw
+
 end SJ.Proofs.TypedSer
